@@ -22,6 +22,9 @@ def parseCause : String → Option CauseKind
   | "innerShutdown" => some .innerShutdown | "innerAbort" => some .innerAbort
   | _ => none
 
+def parseSFault : String → Option SFault
+  | "n" => some .none | "w" => some .write | "p" => some .writePop | _ => none
+
 def parseBool : String → Option Bool
   | "0" => some false | "1" => some true | _ => none
 
@@ -72,12 +75,14 @@ def joinOr (l : List String) : String := if l.isEmpty then "-" else ",".intercal
 def sortStrings (l : List String) : List String := l.mergeSort (fun a b => a ≤ b)
 
 def handle (s : DState) : List String → DState × String
-  | ["reset", ck, before, time, late, wi, ra] =>
-    match parseCause ck, parseBool before, time.toNat?, parseBool late, parseBool wi, parseBool ra with
-    | some ck, some b, some t, some l, some w, some ra =>
-      ({ cfg := { cause := { kind := ck, before := b, time := t, late := l, raiseAfter := ra }, waitInit := w },
+  | ["reset", ck, before, time, late, wi, ra, sf, tg] =>
+    match parseCause ck, parseBool before, time.toNat?, parseBool late, parseBool wi, parseBool ra, parseSFault sf,
+      parseOptNat tg with
+    | some ck, some b, some t, some l, some w, some ra, some sf, some tg =>
+      ({ cfg := { cause := { kind := ck, before := b, time := t, late := l, raiseAfter := ra, target := tg },
+                  waitInit := w, storageFault := sf },
          res := none }, "ok")
-    | _, _, _, _, _, _ => (s, "bad-op")
+    | _, _, _, _, _, _, _, _ => (s, "bad-op")
   | ["blk", kind, flags, mf, idur, ito, cdur, sdur, sto, ons] =>
     match parseBlk kind flags mf idur ito cdur sdur sto ons with
     | some b => ({ s with cfg := { s.cfg with blocks := s.cfg.blocks ++ [b] } },
